@@ -69,7 +69,7 @@ ReadEnd ==
   /\ l' = l + 1
   /\ UNCHANGED <<held, limit, maxForce>>
 
-(* the driver's watchdog: nothing has returned for ten seconds, Log[l].pending calls are still open. For a pool that is   *)
+(* the driver's watchdog: nothing has returned for most of a minute, Log[l].pending calls are still open. For a pool that is   *)
 (* acceptable only while the capacity is in use - callers pending with capacity free is not a behaviour of the gate (C19). *)
 ReadStuck ==
   /\ l <= Len(Log) /\ Log[l].t = "stuck"
